@@ -3,7 +3,7 @@
 /verif/refactored/<ID>-r<round>-<N>.   usage: refcollect.py <round> [ID ...]'''
 import concurrent.futures, json, os, shutil, subprocess, sys, tempfile
 PY = '/venv/bin/python'
-PROPS = ['C01','C02','C03','C04','C05','C06','C07','C08','C09','C10','C11','C12','C13','C14','C15','C17','C18','C19','C20']
+PROPS = ['C01','C02','C03','C04','C05','C06','C07','C08','C09','C10','C11','C12','C13','C14','C15','C16','C17','C18','C19','C20']
 
 def one(job):
     pid, n, rnd = job
